@@ -526,7 +526,10 @@ def coverage_note(pid, units=()):
     p = os.path.join(VERIF, 'units', 'coverage_notes.json')
     if not os.path.exists(p):
         return ''
-    d = json.load(open(p))
+    try:
+        d = json.load(open(p))
+    except Exception:
+        return ''
     out = [d.get(pid, '')]
     for u in units:
         n = d.get(u)
@@ -539,7 +542,10 @@ def assumptions_for(pid, units):
     p = os.path.join(VERIF, 'units', 'assumptions.json')
     out = []
     if os.path.exists(p):
-        d = json.load(open(p))
+        try:
+            d = json.load(open(p))
+        except Exception:
+            d = {}
         out += d.get('*', [])
         for u in units:
             out += d.get(u, [])
@@ -557,7 +563,13 @@ def main():
         return p.returncode
     if cmd == 'check':
         tier = sys.argv[3] if len(sys.argv) > 3 else os.environ.get('VERIF_TIER', 'quick')
-        return check(sys.argv[2], tier)
+        try:
+            return check(sys.argv[2], tier)
+        except Exception as e:   # an error of the machinery itself is never a verdict about the code
+            import traceback
+            traceback.print_exc()
+            print(f'UNDECIDED property={sys.argv[2]}: internal error of the checker: {type(e).__name__}: {e}')
+            return 2
     if cmd == 'gen':
         g = Generator(REPO, os.path.join(UNITS, sys.argv[2], 'unit.rs'))
         print(g.generate())
